@@ -330,3 +330,6 @@ func selfTestFixtures() error {
 }
 
 var _ = h.Seed
+
+func xOf(i *ident) *big.Int { return i.cert.PublicKey.(*ecdsa.PublicKey).X }
+func yOf(i *ident) *big.Int { return i.cert.PublicKey.(*ecdsa.PublicKey).Y }
